@@ -323,9 +323,10 @@ let c01_oracle (spec : string) (r : string) : bool =
        | _ -> false)
   | _ -> false
 
-(* the hypotheses of theorem c01_roundtrip_partial on the object built from the spec *)
+(* the hypotheses of theorem c01_roundtrip_groups_partial on the object built from the spec
+   (c01_flat, the hypothesis of the older flat theorem, implies c01_groups on every case seen) *)
 let hyp_of (c : ctx) (spec : string) : bool =
-  let m = build_msg c spec in wf_msg c m && fresh m && vals_canonical c m && c01_flat c m
+  let m = build_msg c spec in wf_msg c m && fresh m && vals_canonical c m && c01_groups c m
 
 let () = run_protocol (fun case0 impl -> with_schema case0 (fun c case ->
   match words case with
@@ -339,6 +340,6 @@ let () = run_protocol (fun case0 impl -> with_schema case0 (fun c case ->
       let m = run_op c ("RT " ^ mode ^ " " ^ spec) in
       let om = c01_oracle spec m in
       (* the theorem, checked on every case: hypotheses => the model's round trip passes c01_ok *)
-      let m = (try if mode = "s" && not om && not (String.contains spec '(') && hyp_of c spec then "THEOREM-CONTRADICTED " ^ m else m with _ -> m) in
+      let m = (try if mode = "s" && not om && hyp_of c spec then "THEOREM-CONTRADICTED " ^ m else m with _ -> m) in
       (m, c01_oracle spec impl, om)
   | _ -> ("BAD-CASE", false, false)))
